@@ -465,13 +465,22 @@ func (st *State) applyCallOutSpec(fr *Frame, c *Contract, kind string, args []Va
 }
 
 // debugRef records source-level names for specification expressions.
+// isLocalVar: does the debug reference name a local variable, parameter or named result?
+func isLocalVar(x *ssa.DebugRef) bool {
+	v, ok := x.Object().(*types.Var)
+	if !ok || v.IsField() {
+		return false
+	}
+	return v.Pkg() == nil || v.Parent() != v.Pkg().Scope()
+}
+
 func (st *State) debugRef(fr *Frame, x *ssa.DebugRef) {
 	id, ok := x.Expr.(*ast.Ident)
 	if !ok {
 		return
 	}
-	if id.Name == "_" {
-		return
+	if id.Name == "_" || !isLocalVar(x) {
+		return // fields, package-level objects and functions are not locals: a contract must not pick them up by name
 	}
 	v, ok := fr.env[x.X]
 	if !ok {
